@@ -25,7 +25,7 @@ static bool contains(const Bytes &hay, const char *p, size_t n) {
 
 // decode a (possibly corrupted) zstd frame with a generous output bound; true if zstd accepts it
 static bool try_decode(const uint8_t *src, size_t n, const Bytes *dict, Bytes &out) {
-    out.assign(1 << 16, 0); ZSTD_DCtx *d = ZSTD_createDCtx(); size_t rv;
+    out.assign(std::max<size_t>(1 << 16, n * 2 + 4096), 0); ZSTD_DCtx *d = ZSTD_createDCtx(); size_t rv;
     if (dict && !dict->empty()) rv = ZSTD_decompress_usingDict(d, out.data(), out.size(), src, n, dict->data(), dict->size());
     else rv = ZSTD_decompressDCtx(d, out.data(), out.size(), src, n);
     ZSTD_freeDCtx(d);
@@ -102,12 +102,15 @@ static std::string run_one(const Bytes &file, const Bytes &good, size_t flip_off
 
 static void prop(Ctx &c) {
     gen::ZFileOpts o; o.force_comp = ZCK_COMP_ZSTD; o.max_chunks = 6; o.max_chunk = c.tier ? 900 : 300; o.allow_dups = false; o.allow_empty = false; o.allow_uncomp = true;
+    // an eighth of the cases: one chunk larger than the library's 32 KiB buffers or than zstd's 128 KiB block (flips sampled, not enumerated)
+    bool large = c.gver >= 2 && c.rarely(8); if (large) { o.big_rate = 1; o.big_huge = true; o.max_chunks = 3; }
     gen::ZFile z = gen::zfile(c, o);
     size_t n = z.nchunks();
     bool has_dict = !z.plain[0].empty();
     // which chunk is bad
     size_t bad; uint64_t k = c.draw(3);
     bad = k == 0 ? 1 : k == 1 ? n - 1 : k == 2 && has_dict ? 0 : 1 + c.pick(n - 1);
+    if (large) { for (size_t i = 1; i < n; i++) if (z.clen(i) > z.clen(bad) || bad == 0) bad = i; c.label(z.clen(bad) > 131072 ? "bad-chunk>128KiB" : z.clen(bad) > 32768 ? "bad-chunk>32KiB" : "bad-chunk-small"); }
     size_t plain_start = 0; for (size_t i = 1; i < bad; i++) plain_start += z.plain[i].size();
     if (bad == 0) plain_start = 0;
     size_t plen = z.plain[bad].size();
@@ -122,6 +125,7 @@ static void prop(Ctx &c) {
         default: sizes.push_back(1 + c.draw(2 * plen + 10)); break;
         }
     }
+    if (large) for (auto &x : sizes) if (x < 512) x = 4096;          // tiny reads of a large file are quadratic in the library
     bool small_read = false; for (auto s : sizes) if (s < plen) small_read = true;
     Hist hs; { uint64_t a = c.draw(5); hs.pre = a <= 2 ? 0 : (int)a - 2; hs.post = (int)c.draw(2); }
     if (bad == 0 && hs.pre >= 2) hs.pre = 1;   // the dictionary is decoded once, at open: damaging it afterwards is not "reading a chunk whose stored bytes do not match"
@@ -135,7 +139,13 @@ static void prop(Ctx &c) {
     uint64_t evals = 0, decodes = 0, nontriv = 0; std::string sig; bool saw_error = false;
     Bytes f = z.file;
     Bytes dictb = z.plain[0];
-    for (size_t byte = 0; byte < cl; byte++) for (int bit = 0; bit < 8; bit++) {
+    // large chunk: 70 sampled flips (the zstd frame header, the last bytes, block edges, random positions) instead of all of them
+    std::vector<std::pair<size_t, int>> flips;
+    if (cl > 6000) { for (size_t b = 0; b < 12 && b < cl; b++) flips.push_back({b, (int)c.draw(7)}); for (size_t b = 1; b <= 6; b++) flips.push_back({cl - b, (int)c.draw(7)});
+        for (size_t e : {(size_t)32767, (size_t)32768, (size_t)65536, (size_t)131071, (size_t)131072, (size_t)131085}) if (e < cl) flips.push_back({e, (int)c.draw(7)});
+        while (flips.size() < 70) flips.push_back({(size_t)c.draw(cl - 1), (int)c.draw(7)}); }
+    else for (size_t byte = 0; byte < cl; byte++) for (int bit = 0; bit < 8; bit++) flips.push_back({byte, bit});
+    for (auto &fl : flips) { size_t byte = fl.first; int bit = fl.second;
         f[off + byte] ^= (uint8_t)(1u << bit);
         Bytes cp; std::string why;
         bool dec = try_decode(f.data() + off, cl, bad == 0 ? nullptr : &dictb, cp);
